@@ -157,6 +157,23 @@ def rule_cache_access(ctx):
                     any(x in (n['recv'].get('ty', '') + n['recv'].get('aty', '')) for x in ('BTreeMap', 'HashMap', 'MutexGuard')):
                 kt = ctx.pv.eval(fn, n['args'][0], senv, 0)
                 kinst = '%s/map-key' % short(fn.path)
+                # conversions the term language treats as the identity but that are not injective on paths
+                chain_ = []
+                cur_ = n['args'][0]
+                while isinstance(cur_, dict) and cur_.get('k') in ('mcall', 'ref', 'wrap', 'call'):
+                    if cur_['k'] == 'mcall':
+                        chain_.append(cur_['method'])
+                        cur_ = cur_['recv']
+                    elif cur_['k'] == 'call':
+                        chain_.append((cur_.get('callee') or {}).get('path', '').split('::')[-1])
+                        cur_ = cur_['args'][0] if cur_.get('args') else None
+                    else:
+                        cur_ = cur_['e']
+                lossy_ = [m_ for m_ in chain_ if m_ in ('display', 'to_string_lossy', 'to_str', 'to_string', 'file_name', 'file_stem', 'canonicalize', 'to_lowercase', 'to_ascii_lowercase', 'format')]
+                if lossy_:
+                    obs.append(bad('CACHE-KEY', kinst, 'the cache map key goes through %s: distinct paths can collide (or the key depends on the file system)' % lossy_, n.get('sp', ''),
+                                   'two different files can share one cache entry: the output depends on call order'))
+                    continue
                 if kt[0] == 'param' and 'Path' in (fn.d.get('inputs') or [''] * 9)[kt[2]]:
                     obs.append(ok('CACHE-KEY', kinst, 'the cache map is keyed by the caller\'s path itself', n.get('sp', '')))
                 else:
@@ -452,9 +469,35 @@ NODE_TYPES = ('SelectionId', 'selection::Selection', 'ResolvedFragment', 'Stored
 VISITED_METHODS = {'contains', 'insert', 'contains_key'}
 
 
+def _negations_to(fn, root, target, neg=False, depth=0):
+    """number of `!` (as a parity) between the condition `root` and the test `target` inside it; None if the test is not
+    reached through `!`, `&&`, `||`, parentheses and named sub-expressions only"""
+    if root is target:
+        return neg
+    if not isinstance(root, dict) or depth > 8:
+        return None
+    k = root.get('k')
+    if k in ('wrap', 'ref', 'cast'):
+        return _negations_to(fn, root['e'], target, neg, depth + 1)
+    if k == 'unary':
+        return _negations_to(fn, root['e'], target, (not neg) if root.get('op') == '!' else neg, depth + 1)
+    if k == 'binary' and root.get('op') in ('&&', '||'):
+        for side in ('l', 'r'):
+            r = _negations_to(fn, root[side], target, neg, depth + 1)
+            if r is not None:
+                return r
+        return None
+    if k == 'path' and (root.get('res') or {}).get('r') == 'local':
+        srcs = fn.binds.get(root['res']['hid'], [])
+        if len(srcs) == 1 and srcs[0][0] == 'expr':
+            return _negations_to(fn, srcs[0][1], target, neg, depth + 1)
+    return None
+
+
 def _visited_guard(ctx, fn, call):
     """is the recursive `call` control-dependent on a visited-set membership test (or does such a test with an
-    early return precede it)?"""
+    early return precede it)?  The call has to sit on the *fresh* side of the test (`insert` gave true / `contains`
+    gave false); on the other side the guard is inverted: ('inverted', ..)."""
     for pc in P.path_conds(fn, call):
         if pc[0] in ('if',):
             # `a && visited.insert(x) && rec(..)`: the left operand is itself a conjunction
@@ -462,6 +505,12 @@ def _visited_guard(ctx, fn, call):
                 if n['k'] == 'mcall' and n['method'] in VISITED_METHODS:
                     rt = n['recv'].get('ty', '') + n['recv'].get('aty', '')
                     if 'BTreeSet' in rt or 'HashSet' in rt or 'Vec<' in rt or 'BTreeMap' in rt:
+                        neg = _negations_to(fn, pc[1], n)
+                        if neg is not None and isinstance(pc[2], bool):
+                            value = pc[2] != neg        # what the test returned on the path to the call
+                            fresh = value if n['method'] == 'insert' else (not value)
+                            if not fresh:
+                                return 'inverted', 'the call runs only when %s.%s() reported the node as ALREADY visited' % (rt.split('<')[0].split('::')[-1], n['method'])
                         return True, 'guarded by %s.%s()' % (rt.split('<')[0].split('::')[-1], n['method'])
     return False, ''
 
@@ -585,6 +634,10 @@ def rule_rec_guard(ctx):
                                        'possibly unbounded recursion'))
                         continue
                     vg, vwhy = _visited_guard(ctx, fn, call)
+                    if vg == 'inverted':
+                        obs.append(bad('REC-GUARD', inst, 'recursion %s sits on the wrong side of its visited-set test: %s' % (kind, vwhy), loc,
+                                       'fresh nodes are skipped and visited ones are followed again: a reference cycle recurses without bound'))
+                        continue
                     if not vg:
                         # the guard may sit where the pool reference is *taken* (`let next = match n { Spread(id) => { if
                         # !visited.insert(id) { return }; &pool[id].children } .. }`) rather than around the call
@@ -596,7 +649,11 @@ def rule_rec_guard(ctx):
                                     pool_nodes.append(x)
                                 if x['k'] in ('call', 'mcall') and any(p_.endswith(('Query::get_fragment', 'Schema::get_input')) for p_ in H.callee_paths(x)):
                                     pool_nodes.append(x)
-                        if pool_nodes and all(_visited_guard(ctx, fn, pn)[0] for pn in pool_nodes):
+                        if pool_nodes and any(_visited_guard(ctx, fn, pn)[0] == 'inverted' for pn in pool_nodes):
+                            obs.append(bad('REC-GUARD', inst, 'recursion %s: the pool reference is taken on the wrong side of its visited-set test' % kind, loc,
+                                           'fresh nodes are skipped and visited ones are followed again: a reference cycle recurses without bound'))
+                            continue
+                        if pool_nodes and all(_visited_guard(ctx, fn, pn)[0] is True for pn in pool_nodes):
                             vg, vwhy = True, _visited_guard(ctx, fn, pool_nodes[0])[1] + ' where the reference is taken'
                     if vg:
                         obs.append(ok('REC-GUARD', inst, '%s; %s' % (kind, vwhy), loc))
